@@ -31,7 +31,9 @@ RelPath(e, ext) == JoinSlash([i \in 1..Len(e.dirs) |-> Sub(e.dirs[i], ext)]) \o 
 IsTemplate(e) == e.ext = "X" /\ e.suffix = ""
 NameOf(e, ext) == JoinSlash([i \in 1..Len(e.dirs) |-> Sub(e.dirs[i], ext)]) \o e.stem
 Spellings == {[cfg |-> "d", real |-> "d"], [cfg |-> "d/", real |-> "d"], [cfg |-> "./d", real |-> "d"],
-              [cfg |-> "d/../d", real |-> "d"], [cfg |-> "p/d", real |-> "p/d"], [cfg |-> "d/sub", real |-> "d/sub"], [cfg |-> "/d/", real |-> "d"]}
+              [cfg |-> "d/../d", real |-> "d"], [cfg |-> "p/d", real |-> "p/d"], [cfg |-> "d/sub", real |-> "d/sub"], [cfg |-> "/d/", real |-> "d"],
+              \* dots that belong to the name: a hidden directory, a trailing dot, a dotted last segment
+              [cfg |-> ".d", real |-> ".d"], [cfg |-> "d.", real |-> "d."], [cfg |-> "p/.h", real |-> "p/.h"], [cfg |-> "./.d/", real |-> ".d"]}
 Exts == {".tw", ".tw.html", ".html"}
 NameCases(sets, spells, exts) ==
   {[files |-> SetToSeq({[path |-> sp.real \o "/" \o RelPath(e, x), src |-> "x" \o e.stem, kind |-> ""] : e \in es}
@@ -120,7 +122,19 @@ TreeFaults ==
 \cup {PathCase(<<FileRec("home", Lines(Pad(n) \o <<"@component(\"~ghost\")">>), "")>>,
                [ok |-> FALSE, mentions |-> <<"home", "components/ghost">>, file |-> "home", line |-> n + 1], <<>>, "unknown-component") : n \in 0..3}
 
-Cases == CASE Family = "c13tree" -> TreeFaults
+\* faults in the page itself around a component: in a slot body the page passes, in an argument, after the component
+CardLines == <<"<c>@slot</c>|@slot(\"foot\")">>
+RunCase(home, line, tag) == PathCase(<<FileRec("components/card", Lines(CardLines), ""), FileRec("components/c", Lines(GoodComp), ""), FileRec("home", Lines(home), "")>>,
+                                     [ok |-> TRUE, names |-> <<"components/c", "components/card", "home">>],
+                                     <<[op |-> "String", name |-> "home", data |-> <<>>, expect |-> [kind |-> "err", why |-> "fault", line |-> line], path |-> "home"]>>, tag)
+CompFaults ==
+     {RunCase(Pad(n) \o <<"@component(\"~card\")", "@slot", f, "@end", "@end">>, n + 3, "slot-body-runtime") : n \in 0..3, f \in RunFaults}
+\cup {RunCase(Pad(n) \o <<"@component(\"~card\")", "@slot(\"foot\")", "a", f, "@end", "@end">>, n + 4, "named-slot-body-runtime") : n \in 0..3, f \in RunFaults}
+\cup {RunCase(Pad(n) \o <<"@component(\"~c\", {n: 1})", f>>, n + 2, "after-component-runtime") : n \in 0..3, f \in RunFaults}
+\cup {RunCase(Pad(n) \o <<"@component(\"~card\")", "@slot", "s", "@end", "@end", f>>, n + 6, "after-slots-runtime") : n \in 0..3, f \in RunFaults}
+\cup {RunCase(Pad(n) \o <<"@component(\"~c\", {n: " \o a \o "})">>, n + 1, "argument-runtime") : n \in 0..3, a \in {"zz", "1 / 0"}}
+
+Cases == CASE Family = "c13tree" -> TreeFaults \cup CompFaults
            [] Family = "c18names" -> NameCases(Singles, Spellings, Exts)
            [] Family = "c18namesall" -> NameCases(Singles \cup Pairs, Spellings, Exts)
            [] Family = "c18faults" -> FaultCases \cup TruncCases \cup BaseCase
